@@ -25,6 +25,20 @@ impl<T: crate::EventSource> vstd::std_specs::convert::FromSpecImpl<T> for Transi
 impl<T> TransientSource<T> {
     pub closed spec fn st(&self) -> TransientSourceState<T> { self.state }
 }
+impl<T> TransientSourceState<T> {
+    /// The state invariant `inv` below, said with `droppable` -- usable where `T` has no EventSource bound (remove,
+    /// replace): every child the state holds is registered exactly when `inv` says so.
+    pub open spec fn inv_d(self, parent_reg: bool) -> bool {
+        match self {
+            TransientSourceState::Keep(c) => droppable(c) == !parent_reg,
+            TransientSourceState::Register(c) => droppable(c),
+            TransientSourceState::Disable(c) => droppable(c) == !parent_reg,
+            TransientSourceState::Remove(c) => droppable(c) == !parent_reg,
+            TransientSourceState::Replace { new, old } => droppable(new) && droppable(old) == !parent_reg,
+            TransientSourceState::None => true,
+        }
+    }
+}
 impl<T: crate::EventSource> TransientSourceState<T> {
     /// State invariant, parameterised by whether the wrapper itself is currently registered by its parent:
     /// the wrapped child is registered exactly when it is the current, kept child of a registered parent.
@@ -83,32 +97,45 @@ impl<T: crate::EventSource> TransientSourceState<T> {
 //@ rw R1 * <<replace_state(TransientSourceState::Disable)>> => <<replace_state(|x: T| -> (r: TransientSourceState<T>) ensures r == TransientSourceState::Disable(x) { TransientSourceState::Disable(x) })>>
 //@ rw R1 * <<replace_state(TransientSourceState::Remove)>> => <<replace_state(|x: T| -> (r: TransientSourceState<T>) ensures r == TransientSourceState::Remove(x) { TransientSourceState::Remove(x) })>>
 //@ spec
-        // documented: calling this while a replacement is pending drops (leaks) the old source
+        // the documented protocol (C18: "a re-registration is requested after each change"): no second change while a
+        // replacement is still pending -- it would drop the old, still registered source
         requires old(self).st() matches TransientSourceState::Replace { new, old } ==> droppable(old),
         ensures
+            // the wrapped source is no longer reachable (map() answers None) ...
+            final(self).st() is Remove || final(self).st() is None,
+            // ... a child that may be registered is KEPT until a re-registration has unregistered it, never dropped here
             match old(self).st() {
                 TransientSourceState::Keep(c) => final(self).st() == TransientSourceState::Remove(c),
-                TransientSourceState::Register(c) => final(self).st() == TransientSourceState::Remove(c),
                 TransientSourceState::Disable(c) => final(self).st() == TransientSourceState::Remove(c),
                 TransientSourceState::Remove(c) => final(self).st() == TransientSourceState::Remove(c),
-                TransientSourceState::Replace { new, old } => final(self).st() == TransientSourceState::Remove(new),
-                TransientSourceState::None => final(self).st() is None,
+                _ => true,
             },
+            // C18: whatever state the wrapper is in and whether or not its parent has it registered, the request keeps the
+            // state in step with what is registered: the child it marks for removal is one that IS registered while the
+            // parent is (a child that still waits for its first registration must not be "unregistered" later)
+            forall|p: bool| #[trigger] old(self).st().inv_d(p) ==> final(self).st().inv_d(p),
 //@ enditem
 //@ item src/sources/transient.rs / impl TransientSource<T> / fn replace props=C18
 //@ closure <<|old| TransientSourceState::Replace { new, old }>>
 -> (r: TransientSourceState<T>) ensures r == (TransientSourceState::Replace { new, old })
 //@ spec
-        requires old(self).st() matches TransientSourceState::Replace { new: n0, old: o0 } ==> droppable(o0),
+        requires
+            // (protocol, as for remove) no second change while a replacement is pending
+            old(self).st() matches TransientSourceState::Replace { new: n0, old: o0 } ==> droppable(o0),
+            // the source handed in is not registered anywhere
+            droppable(new),
         ensures
+            // a child that may be registered is kept (as `old`) until a re-registration has unregistered it; the new source
+            // waits for its first registration
             match old(self).st() {
                 TransientSourceState::Keep(c) => final(self).st() == (TransientSourceState::Replace { new, old: c }),
-                TransientSourceState::Register(c) => final(self).st() == (TransientSourceState::Replace { new, old: c }),
                 TransientSourceState::Disable(c) => final(self).st() == (TransientSourceState::Replace { new, old: c }),
                 TransientSourceState::Remove(c) => final(self).st() == (TransientSourceState::Replace { new, old: c }),
-                TransientSourceState::Replace { new: n0, old: o0 } => final(self).st() == (TransientSourceState::Replace { new, old: n0 }),
                 TransientSourceState::None => final(self).st() is None,
+                _ => (final(self).st() matches TransientSourceState::Replace { new: n, old: o } && n == new)
+                        || final(self).st() == TransientSourceState::Register(new),
             },
+            forall|p: bool| #[trigger] old(self).st().inv_d(p) ==> final(self).st().inv_d(p),
 //@ enditem
 //@ close
 
